@@ -308,6 +308,7 @@ def enum_fixed(tier):
         yield {"ops": [["reject", [1, 10], -70406], ["sub", [[1, 9], [1, 10]]], ["drop", how], ["unsub", [[1, 10]]], ["drop", how], ["burst", [v], []]]}
 
 
+from props.ble_layers import C12_BLE_LAYERS as _BLE12  # noqa: E402
 from props.coap_layers import C12_COAP_LAYERS as _COAP  # noqa: E402
 
 SPEC = Property(
@@ -321,6 +322,7 @@ SPEC = Property(
         Layer("fixed-shapes", run_case, enumerate=enum_fixed, exhaustive=True, space="5 unparsable body kinds x 2 frames; FIN/reset x 4 frames", min_nontrivial=10),
         Layer("generated", run_case, strategy=histories, n={"quick": 12000, "thorough": 150000}, min_nontrivial=500),
         *_COAP,
+        *_BLE12,
     ],
     assumptions=["valid JSON that is not an object is not generated as an event body",
                  "listener order within one event is not constrained (listeners are kept in a set); per-listener order is",
